@@ -153,6 +153,15 @@ theorem wrapper_b2b_len_mismatch {σ : Type} (K : Core σ) (w : Nat) (s : Wr σ)
   refine ⟨out, s, ?_, rfl, rfl⟩
   simp [applyB2b, h]
 
+/-- **seeking and position reporting never panic** for any non-negative seek target and any wrapper state reachable
+    through the API (the buffer position is always in `1 ..= bs` — `WInv.pos_pos` — so `from_block_byte`'s
+    `debug_assert!(byte != 0)` holds; `byte_pos = p % bs < bs`, so `try_seek`'s assertion holds); overflow is reported
+    as `Err`, which is what C10 proves about the values. -/
+theorem seek_and_pos_never_panic {σ : Type} (K : Glue.Core σ) (s : Glue.Wr σ) (hbs : 0 < K.bs) (hpos : 1 ≤ s.pos)
+    (snMax p : Nat) :
+    Chk.currentPos? K s snMax = some (s.currentPos K snMax) ∧ Chk.seek? K s p = some (s.seek K p) :=
+  ⟨Chk.currentPos?_eq K s snMax hpos, Chk.seek?_eq K s p hbs⟩
+
 /-- padded decryption of a length that is not a multiple of the block size is an error (for a positive
     block size). -/
 theorem padded_dec_nonmultiple_is_err {σ : Type} (mbs : Nat) (hm : 0 < mbs)
